@@ -95,7 +95,9 @@ def logic_ll(target=None):
             f.write('#include <ace_time/%s>\n' % c)
         f.write(INSTANTIATE)
     out = src[:-4] + '.ll'
-    cmd = ['clang++'] + CXXFLAGS + ['-O0', '-g', '-fno-discard-value-names', '-fno-access-control',
+    # the proofs read the code as it ships: the instrumentation hooks (guarded by ACE_TIME_VERIF_HOOKS) are for the native
+    # bounded harnesses only, and stay out of the IR
+    cmd = ['clang++'] + [f for f in CXXFLAGS if not f.startswith('-DACE_TIME_VERIF_HOOKS')] + ['-O0', '-g', '-fno-discard-value-names', '-fno-access-control',
                                       '-femit-all-decls', '-S', '-emit-llvm', src, '-o', out]
     if target:
         # cross target (AVR: 16-bit int and pointers): freestanding, with minimal libc declarations instead of the host's glibc
